@@ -56,6 +56,16 @@ Proof.
     destruct H as (A & B & _). split; assumption.
 Qed.
 
+(* a bytes object: the parse re-serialises to the first pickle of the buffer *)
+Lemma parse_bytes_exact data p2 :
+  parse_bytes data = LOk p2 ->
+  dumps (l_ops p2) = Ok (firstn (l_end p2) data) /\ ends_in_stop (l_ops p2) (l_end p2) /\
+  0 < l_end p2 <= List.length data.
+Proof.
+  unfold parse_bytes. intro H. apply bytes_exact in H. destruct H as (A & B & _ & C & _).
+  repeat split; try assumption; lia.
+Qed.
+
 Section WithWorld.
 Variable V : Type.
 Variable unpickle : list byte -> ures V * list event.
@@ -63,133 +73,190 @@ Variable decode : list opc -> option (list op * list (nat * Z)).
 Variable crepr : const -> string.
 Variable std : string -> bool.
 
+Notation load_core := (Loader.load_core V unpickle decode crepr std).
 Notation load := (Loader.load V unpickle decode crepr std).
-Notation load_reread := (Loader.load_reread V unpickle decode crepr std).
-Notation armed_load := (Loader.armed_load V unpickle decode crepr std).
+Notation armed_with := (Loader.armed_with V).
 Notation check := (Loader.check crepr std).
 
-(* the parse succeeded, the analysis returned findings fs *)
-Definition analysed (s : stream) (p : loaded) (fs : list finding) : Prop :=
+(* the first Pickled.load returned opcodes that re-serialise to [data] *)
+Definition data_of (p1 : lres (list opc)) (data : list byte) : Prop :=
+  exists ops1, p1 = LOk ops1 /\ dumps ops1 = Ok data.
+
+(* the re-parse of [data] succeeded and its analysis returned findings fs *)
+Definition analysed (data : list byte) (p2 : loaded) (fs : list finding) : Prop :=
   exists prog protos,
-    load_model (s_kind s) (s_at s T_PARSE) (s_off s) = LOk p /\
-    decode (l_ops p) = Some (prog, protos) /\
+    parse_bytes data = LOk p2 /\
+    decode (l_ops p2) = Some (prog, protos) /\
     check prog protos = COk fs.
 
-(* why a call was refused *)
-Inductive refusal (s : stream) (thr : sev) : lexn -> Prop :=
-| RParse e :
-    load_model (s_kind s) (s_at s T_PARSE) (s_off s) = LErr e -> refusal s thr (XParse e)
-| RDecode p :
-    load_model (s_kind s) (s_at s T_PARSE) (s_off s) = LOk p -> decode (l_ops p) = None ->
-    refusal s thr (XParse LDecode)
-| RAnalysis p prog protos a :
-    load_model (s_kind s) (s_at s T_PARSE) (s_off s) = LOk p -> decode (l_ops p) = Some (prog, protos) ->
-    check prog protos = CErr a -> refusal s thr (XAnalysis a)
-| RUnsafe p fs :
-    analysed s p fs -> sev_le (verdict fs) thr = false -> refusal s thr (XUnsafe (to_dict fs)).
+(* why a call was refused -- for ANY result p1 of the first parse *)
+Inductive refusal (p1 : lres (list opc)) (thr : sev) : lexn -> Prop :=
+| RParse e : p1 = LErr e -> refusal p1 thr (XParse e)
+| RDumps ops1 e : p1 = LOk ops1 -> dumps ops1 = Err e -> refusal p1 thr (XDumps e)
+| RReparse data e : data_of p1 data -> parse_bytes data = LErr e -> refusal p1 thr (XParse e)
+| RDecode data p2 :
+    data_of p1 data -> parse_bytes data = LOk p2 -> decode (l_ops p2) = None ->
+    refusal p1 thr (XParse LDecode)
+| RAnalysis data p2 prog protos a :
+    data_of p1 data -> parse_bytes data = LOk p2 -> decode (l_ops p2) = Some (prog, protos) ->
+    check prog protos = CErr a -> refusal p1 thr (XAnalysis a)
+| RUnsafe data p2 fs :
+    data_of p1 data -> analysed data p2 fs -> sev_le (verdict fs) thr = false ->
+    refusal p1 thr (XUnsafe (to_dict fs)).
 
 (* the two shapes of a run: accepted-and-unpickled, or refused with nothing done *)
-Lemma load_cases s thr :
-  (exists p fs, analysed s p fs /\ sev_le (verdict fs) thr = true /\
-                load s thr = finish V (unpickle (analysed_bytes s p)) (analysed_bytes s p)
-                                    (parse_reads (s_kind s)))
-  \/ (exists x, refusal s thr x /\ load s thr = refuse V x (parse_reads (s_kind s))).
+Lemma core_cases p1 rd thr :
+  (exists data p2 fs, data_of p1 data /\ analysed data p2 fs /\ sev_le (verdict fs) thr = true /\
+                      load_core p1 rd thr = finish V (unpickle data) data rd)
+  \/ (exists x, refusal p1 thr x /\ load_core p1 rd thr = refuse V x rd).
 Proof.
-  unfold Loader.load.
-  destruct (load_model (s_kind s) (s_at s T_PARSE) (s_off s)) as [p|e] eqn:EL.
-  2:{ right. exists (XParse e). split; [apply RParse; exact EL|reflexivity]. }
-  destruct (decode (l_ops p)) as [[prog protos]|] eqn:ED.
+  unfold Loader.load_core.
+  destruct p1 as [ops1|e].
+  2:{ right. exists (XParse e). split; [apply RParse; reflexivity|reflexivity]. }
+  destruct (dumps ops1) as [data|e] eqn:ED.
+  2:{ right. exists (XDumps e). split; [eapply RDumps; [reflexivity|exact ED]|reflexivity]. }
+  assert (HD : data_of (LOk ops1) data) by (exists ops1; split; [reflexivity|exact ED]).
+  destruct (parse_bytes data) as [p2|e] eqn:EP.
+  2:{ right. exists (XParse e). split; [eapply RReparse; eassumption|reflexivity]. }
+  destruct (decode (l_ops p2)) as [[prog protos]|] eqn:EDc.
   2:{ right. exists (XParse LDecode). split; [eapply RDecode; eassumption|reflexivity]. }
   destruct (Loader.check crepr std prog protos) as [fs|a] eqn:EC.
   2:{ right. exists (XAnalysis a). split; [eapply RAnalysis; eassumption|reflexivity]. }
-  assert (HA : analysed s p fs) by (exists prog, protos; repeat split; assumption).
+  assert (HA : analysed data p2 fs) by (exists prog, protos; repeat split; assumption).
   destruct (sev_le (verdict fs) thr) eqn:ES.
-  - destruct (dumps_is_first_pickle s p EL) as (HD & _). rewrite HD.
-    left. exists p, fs. repeat split; assumption.
+  - left. exists data, p2, fs. repeat split; assumption.
   - right. exists (XUnsafe (to_dict fs)). split; [eapply RUnsafe; eassumption|reflexivity].
-Qed.
-
-Lemma analysed_fun s p fs p' fs' : analysed s p fs -> analysed s p' fs' -> p = p' /\ fs = fs'.
-Proof.
-  intros (g & r & A & B & C) (g' & r' & A' & B' & C').
-  rewrite A in A'. inversion A'; subst p'. rewrite B in B'. inversion B'; subst g' r'.
-  rewrite C in C'. inversion C'. split; reflexivity.
 Qed.
 
 Lemma finish_out u bs rd v : r_out (finish V u bs rd) = Return v -> fst u = UVal v.
 Proof. unfold finish. simpl. destruct (fst u); intro H; inversion H. reflexivity. Qed.
 
-(* ---- C02_returns_only_if_accepted (+ equals stock) ---- *)
-Lemma returns_only_if_accepted s thr v :
-  wf thr -> r_out (load s thr) = Return v ->
-  exists p fs,
-    analysed s p fs /\
+(* ---- C02_returns_only_if_accepted (+ equals stock), for ANY first parse ---- *)
+Lemma returns_only_if_accepted p1 rd thr v :
+  wf thr -> r_out (load_core p1 rd thr) = Return v ->
+  exists data p2 fs,
+    data_of p1 data /\ analysed data p2 fs /\
     sev_le (verdict fs) thr = true /\ doc_rank (verdict fs) <= doc_rank thr /\
-    dumps (l_ops p) = Ok (analysed_bytes s p) /\
-    fst (unpickle (analysed_bytes s p)) = UVal v /\
-    r_events (load s thr) = snd (unpickle (analysed_bytes s p)) /\
-    r_loaded (load s thr) = Some (analysed_bytes s p).
+    dumps (l_ops p2) = Ok (firstn (l_end p2) data) /\ ends_in_stop (l_ops p2) (l_end p2) /\
+    fst (unpickle data) = UVal v /\
+    r_events (load_core p1 rd thr) = snd (unpickle data) /\
+    r_loaded (load_core p1 rd thr) = Some data.
 Proof.
-  intros Hthr H. destruct (load_cases s thr) as [(p & fs & HA & HS & E)|(x & _ & E)]; rewrite E in *.
-  - exists p, fs. split; [exact HA|]. split; [exact HS|].
+  intros Hthr H. destruct (core_cases p1 rd thr) as [(data & p2 & fs & HD & HA & HS & E)|(x & _ & E)];
+    rewrite E in *.
+  - exists data, p2, fs. split; [exact HD|]. split; [exact HA|]. split; [exact HS|].
     split. { rewrite le_spec in HS by (try apply verdict_wf; assumption). apply Nat.leb_le. exact HS. }
-    destruct HA as (g & r & A & _). split; [apply (dumps_is_first_pickle s p A)|].
+    destruct HA as (g & r & A & _). destruct (parse_bytes_exact data p2 A) as (D1 & D2 & _).
+    split; [exact D1|]. split; [exact D2|].
     split; [apply finish_out in H; exact H|]. split; reflexivity.
   - discriminate H.
 Qed.
 
 (* ---- C02_fail_closed ---- *)
-Lemma refused_nothing_ran s thr x :
-  refusal s thr x ->
-  load s thr = refuse V x (parse_reads (s_kind s)) /\
-  r_out (load s thr) = Raise x /\ r_events (load s thr) = [] /\ r_loaded (load s thr) = None.
+Lemma refused_nothing_ran p1 rd thr x :
+  refusal p1 thr x ->
+  load_core p1 rd thr = refuse V x rd /\
+  r_out (load_core p1 rd thr) = Raise x /\ r_events (load_core p1 rd thr) = [] /\
+  r_loaded (load_core p1 rd thr) = None.
 Proof.
   intro R.
-  assert (E : load s thr = refuse V x (parse_reads (s_kind s))).
-  { unfold Loader.load. destruct R as [e H|p H H'|p g r a H H' H''|p fs (g & r & H & H' & H'') HS].
-    - rewrite H. reflexivity.
-    - rewrite H, H'. reflexivity.
-    - rewrite H, H', H''. reflexivity.
-    - rewrite H, H', H'', HS. reflexivity. }
+  assert (E : load_core p1 rd thr = refuse V x rd).
+  { unfold Loader.load_core.
+    destruct R as [e H|ops1 e H H'|data e (o & H & H') H''|data p2 (o & H & H') H'' H3
+                  |data p2 g r a (o & H & H') H'' H3 H4|data p2 fs (o & H & H') (g & r & H'' & H3 & H4) HS];
+      subst p1.
+    - reflexivity.
+    - rewrite H'. reflexivity.
+    - rewrite H', H''. reflexivity.
+    - rewrite H', H'', H3. reflexivity.
+    - rewrite H', H'', H3, H4. reflexivity.
+    - rewrite H', H'', H3, H4, HS. reflexivity. }
   rewrite E. repeat split.
 Qed.
 
-Lemma unsafe_carries_verdict s thr p fs :
-  wf thr -> analysed s p fs ->
+Lemma unsafe_carries_verdict p1 rd thr data p2 fs :
+  wf thr -> data_of p1 data -> analysed data p2 fs ->
   (sev_le (verdict fs) thr = false <-> doc_rank thr < doc_rank (verdict fs)) /\
   (sev_le (verdict fs) thr = false ->
-     r_out (load s thr) = Raise (XUnsafe (to_dict fs)) /\
+     r_out (load_core p1 rd thr) = Raise (XUnsafe (to_dict fs)) /\
      rp_severity (to_dict fs) = sev_name (verdict fs) /\ rp_findings (to_dict fs) = fs /\
-     r_events (load s thr) = [] /\ r_loaded (load s thr) = None).
+     r_events (load_core p1 rd thr) = [] /\ r_loaded (load_core p1 rd thr) = None).
 Proof.
-  intros Hthr HA. split.
+  intros Hthr HD HA. split.
   - rewrite le_spec by (try apply verdict_wf; assumption). rewrite Nat.leb_gt. reflexivity.
-  - intro HS. destruct (refused_nothing_ran s thr (XUnsafe (to_dict fs)) (RUnsafe s thr p fs HA HS))
+  - intro HS. destruct (refused_nothing_ran p1 rd thr (XUnsafe (to_dict fs)) (RUnsafe p1 thr data p2 fs HD HA HS))
       as (_ & A & B & C). repeat split; assumption.
 Qed.
 
 (* anything that happened (an event, a call of the unpickler) implies acceptance *)
-Lemma effects_only_if_accepted s thr :
-  r_events (load s thr) <> [] \/ r_loaded (load s thr) <> None ->
-  exists p fs, analysed s p fs /\ sev_le (verdict fs) thr = true /\
-               r_loaded (load s thr) = Some (analysed_bytes s p) /\
-               r_events (load s thr) = snd (unpickle (analysed_bytes s p)).
+Lemma effects_only_if_accepted p1 rd thr :
+  r_events (load_core p1 rd thr) <> [] \/ r_loaded (load_core p1 rd thr) <> None ->
+  exists data p2 fs, data_of p1 data /\ analysed data p2 fs /\ sev_le (verdict fs) thr = true /\
+                     r_loaded (load_core p1 rd thr) = Some data /\
+                     r_events (load_core p1 rd thr) = snd (unpickle data).
 Proof.
-  intro H. destruct (load_cases s thr) as [(p & fs & HA & HS & E)|(x & _ & E)]; rewrite E in *.
-  - exists p, fs. repeat split; assumption.
+  intro H. destruct (core_cases p1 rd thr) as [(data & p2 & fs & HD & HA & HS & E)|(x & _ & E)]; rewrite E in *.
+  - exists data, p2, fs. repeat split; assumption.
   - simpl in H. destruct H as [H|H]; contradiction H; reflexivity.
 Qed.
 
-(* ---- C02_bytes_executed_are_bytes_analysed ---- *)
-Lemma loaded_is_analysed s thr bs :
+(* ---- C02_bytes_executed_are_bytes_analysed, with NO assumption on the first parse ---- *)
+Lemma executed_is_analysed p1 rd thr bs :
+  r_loaded (load_core p1 rd thr) = Some bs ->
+  data_of p1 bs /\
+  exists p2 prog protos fs,
+    parse_bytes bs = LOk p2 /\ decode (l_ops p2) = Some (prog, protos) /\
+    check prog protos = COk fs /\ sev_le (verdict fs) thr = true /\
+    dumps (l_ops p2) = Ok (firstn (l_end p2) bs) /\ ends_in_stop (l_ops p2) (l_end p2) /\
+    0 < l_end p2 <= List.length bs.
+Proof.
+  intro H. destruct (core_cases p1 rd thr) as [(data & p2 & fs & HD & HA & HS & E)|(x & _ & E)]; rewrite E in H.
+  - simpl in H. inversion H; subst bs. split; [exact HD|].
+    destruct HA as (g & r & A & B & C). destruct (parse_bytes_exact data p2 A) as (D1 & D2 & D3).
+    exists p2, g, r, fs. repeat split; try assumption; lia.
+  - discriminate H.
+Qed.
+
+(* the whole run is a function of the bytes the first parse re-serialises to -- positions, and whatever
+   arguments the tokeniser decoded while reading the stream, play no role *)
+Lemma core_depends_on_dumps_only ops1 ops1' rd thr :
+  dumps ops1 = dumps ops1' -> load_core (LOk ops1) rd thr = load_core (LOk ops1') rd thr.
+Proof. intro H. unfold Loader.load_core. rewrite H. reflexivity. Qed.
+
+Lemma core_reads p1 rd thr : r_reads (load_core p1 rd thr) = rd.
+Proof.
+  destruct (core_cases p1 rd thr) as [(data & p2 & fs & _ & _ & _ & E)|(x & _ & E)]; rewrite E; reflexivity.
+Qed.
+
+Lemma equals_stock p1 rd thr v :
+  r_out (load_core p1 rd thr) = Return v ->
+  exists bs, r_loaded (load_core p1 rd thr) = Some bs /\ unpickle bs = (UVal v, r_events (load_core p1 rd thr)).
+Proof.
+  intro H. destruct (core_cases p1 rd thr) as [(data & p2 & fs & _ & _ & _ & E)|(x & _ & E)]; rewrite E in *.
+  - exists data. split; [reflexivity|]. apply finish_out in H. simpl.
+    destruct (unpickle data) as [u ev]. simpl in *. subst u. reflexivity.
+  - discriminate H.
+Qed.
+
+(* ---------- streams that are stable while they are parsed ---------- *)
+Lemma first_parse_data s data :
+  data_of (first_parse s) data ->
+  exists p, load_model (s_kind s) (s_at s T_PARSE) (s_off s) = LOk p /\
+            data = analysed_bytes s p /\ ends_in_stop (l_ops p) (l_end p).
+Proof.
+  unfold first_parse. intros (ops1 & H & D).
+  destruct (load_model (s_kind s) (s_at s T_PARSE) (s_off s)) as [p|e] eqn:EL; [|discriminate].
+  inversion H; subst ops1. destruct (dumps_is_first_pickle s p EL) as (D' & S).
+  rewrite D' in D. inversion D. exists p. repeat split; assumption.
+Qed.
+
+Lemma loaded_is_first_pickle s thr bs :
   r_loaded (load s thr) = Some bs ->
   exists p, load_model (s_kind s) (s_at s T_PARSE) (s_off s) = LOk p /\
-            dumps (l_ops p) = Ok bs /\ bs = analysed_bytes s p /\ ends_in_stop (l_ops p) (l_end p).
+            bs = analysed_bytes s p /\ ends_in_stop (l_ops p) (l_end p).
 Proof.
-  intro H. destruct (load_cases s thr) as [(p & fs & HA & HS & E)|(x & _ & E)]; rewrite E in H.
-  - simpl in H. inversion H; subst bs. destruct HA as (g & r & A & _).
-    exists p. destruct (dumps_is_first_pickle s p A) as (D & S). repeat split; assumption.
-  - discriminate H.
+  unfold Loader.load. intro H. apply executed_is_analysed in H. destruct H as (HD & _).
+  apply first_parse_data. exact HD.
 Qed.
 
 (* what precedes the analysed pickle in the stream, and what follows it, is never executed *)
@@ -198,7 +265,7 @@ Lemma surroundings_irrelevant s thr pre b rest r bs :
   load_model KSeekable b 0 = LOk r -> l_end r = List.length b ->
   r_loaded (load s thr) = Some bs -> bs = b.
 Proof.
-  intros K O C L E H. apply loaded_is_analysed in H. destruct H as (p & LP & _ & HB & _).
+  intros K O C L E H. apply loaded_is_first_pickle in H. destruct H as (p & LP & HB & _).
   subst bs. rewrite K, O, C in LP. rewrite (seekable_prefix pre b rest r L) in LP.
   inversion LP; subst p; clear LP.
   unfold analysed_bytes. rewrite K, O, C. cbn [l_end shift_loaded].
@@ -207,38 +274,24 @@ Proof.
   rewrite firstn_app, firstn_all, Nat.sub_diag. cbn [firstn]. apply app_nil_r.
 Qed.
 
-(* the returned object and the events are the stock unpickler's on the bytes it was handed *)
-Lemma equals_stock s thr v :
-  r_out (load s thr) = Return v ->
-  exists bs, r_loaded (load s thr) = Some bs /\ unpickle bs = (UVal v, r_events (load s thr)).
-Proof.
-  intro H. destruct (load_cases s thr) as [(p & fs & _ & _ & E)|(x & _ & E)]; rewrite E in *.
-  - exists (analysed_bytes s p). split; [reflexivity|]. apply finish_out in H. simpl.
-    destruct (unpickle (analysed_bytes s p)) as [u ev]. simpl in *. subst u. reflexivity.
-  - discriminate H.
-Qed.
-
 Lemma later_content_irrelevant s s' thr :
   s_kind s = s_kind s' -> s_off s = s_off s' -> s_at s T_PARSE = s_at s' T_PARSE ->
   load s thr = load s' thr.
-Proof. intros A B C. unfold Loader.load. rewrite A, B, C. reflexivity. Qed.
+Proof. intros A B C. unfold Loader.load, first_parse. rewrite A, B, C. reflexivity. Qed.
 
 Lemma reads_only_during_parse s thr t : In t (r_reads (load s thr)) -> t = T_PARSE.
 Proof.
-  intro H.
-  assert (R : r_reads (load s thr) = parse_reads (s_kind s)).
-  { destruct (load_cases s thr) as [(p & fs & _ & _ & E)|(x & _ & E)]; rewrite E; reflexivity. }
-  rewrite R in H. destruct (s_kind s); simpl in H; intuition.
+  unfold Loader.load. rewrite core_reads. destruct (s_kind s); simpl; intuition.
 Qed.
 
 (* ---- C02_armed_equiv ---- *)
-Lemma armed_equiv h a s :
+Lemma armed_equiv (checked : sev -> lrun V) (stock : lrun V) h a :
   g_ml (grun g_init h) = None ->
-  armed_load h a s =
-    Some (load s (match a with ADirect thr => thr | _ => LIKELY_SAFE end)).
+  armed_with checked stock h a =
+    Some (checked (match a with ADirect thr => thr | _ => LIKELY_SAFE end)).
 Proof.
   intro HG. destruct a as [thr| |t]; [reflexivity| |];
-    unfold Loader.armed_load, Loader.pickle_load, arm_ops; simpl hrun;
+    unfold Loader.armed_with, Loader.pickle_load_with, arm_ops; simpl hrun;
     destruct (others_reachable h) as (P & _); rewrite HG in P; simpl in P.
   - simpl. rewrite P. reflexivity.
   - simpl. rewrite P. reflexivity.
